@@ -57,6 +57,7 @@ def main(argv):
     ap.add_argument("--no-evidence", action="store_true")
     ap.add_argument("--digests-out")
     ap.add_argument("--survey")
+    ap.add_argument("--replay-dir")
     ap.add_argument("--seeds", type=int, default=6)
     ap.add_argument("--quiet", action="store_true")
     a = ap.parse_args(argv)
@@ -78,7 +79,11 @@ def main(argv):
         from matsim.selftest import main as st
 
         return st(a.seeds)
+    from matsim import driver
     from matsim.driver import run_check
+
+    if a.replay_dir:
+        driver.REPLAY_DIR = a.replay_dir
 
     wl = [int(x) for x in a.world_list.split(",")] if a.world_list else None
     return run_check(
